@@ -51,7 +51,7 @@ def context(tier, seed):
     B = 2 if tier == "quick" else 3
     return {"tier": tier, "B": B, "p": [60, 21, 107, 64][seed % 4],
             "bounds": {"max_planned_bars": B, "signatures": [None] + list(SIG), "tracks": [1, 3],
-                       "onsets_per_bar": "start, +6, end-12, end-6", "durations": [6, 12, 36],
+                       "onsets_per_bar": "start, +6, end-12, end-6, end-4", "durations": [6, 12, 36],
                        "plans": len(list(plans(B)))}}
 
 
@@ -68,7 +68,7 @@ def alphabet(plan, p, ch=0):
     al = []
     for b in range(len(plan)):
         s, e = st[b], st[b + 1]
-        for o in sorted({s, s + 6, e - 12, e - 6}):
+        for o in sorted({s, s + 6, e - 12, e - 6, e - 4}):     # e-4 + 36 leaves a 32-tick fragment (nearest legal value is longer)
             if s <= o < e:
                 for d in (6, 12, 36):
                     al.append((o, d, p, ch, 64))
